@@ -11,7 +11,7 @@ EXTENDS TextFormat, Json, TLC
 
 VARIABLES ph, comp
 vars == <<ph, comp>>
-Vecs == {<<100, 250>>, <<0, 0>>, <<-300, 1>>, <<1005, 13>>}
+Vecs == {<<100, 250>>, <<0, 0>>, <<-300, 1>>, <<1005, 13>>, <<-40, -5>>}
 Init == ph = 0 /\ comp = <<>>
 Pick ==
   /\ ph = 0 /\ ph' = 1
